@@ -8,7 +8,7 @@ import (
 
 func replayMore(rp *ev.Replay) *ev.Failure {
 	switch rp.Property + "/" + rp.Test {
-	case "C11/scase", "C11/ucase", "C11/raceround":
+	case "C11/scase", "C11/ucase", "C11/raceround", "C11/firstuse":
 		return replayShim(rp)
 	case "C12/xcase":
 		var c XCase
